@@ -168,9 +168,16 @@ def check_save(root, before, after, view_b, view_a, step, what):
     # logical Manifests must not vanish
     for lg in view_b:
         if lg not in view_a:
+            ldir = os.path.join(root, refscan.dirname(lg))
+            if os.path.realpath(ldir) != os.path.normpath(ldir):
+                # a second name (through a directory symlink) of a Manifest
+                # that was renamed under its real name
+                continue
             return ('manifest-vanished', f'{what}: Manifest {lg!r} is gone')
     # DIST per logical Manifest
     for lg, (mp, eb) in view_b.items():
+        if lg not in view_a:
+            continue        # (an alias that went away, see above)
         ea = view_a[lg][1]
         if lines(eb, 'DIST') != lines(ea, 'DIST'):
             return ('dist-changed',
@@ -231,6 +238,9 @@ def check_save(root, before, after, view_b, view_a, step, what):
                             f'{sorted(tags_b)} to {e.tag}')
     if target:
         rewritten = {R.strip_compression(p) for p in changed}
+        # (... also under the names a directory symlink gives them)
+        real_rewritten = {R.strip_compression(os.path.realpath(
+            os.path.join(root, p))) for p in changed}
         real_target = os.path.realpath(os.path.join(root, target))
         for full in set(fb) | set(fa):
             if refverify.comp_prefix(target, full):
@@ -243,8 +253,11 @@ def check_save(root, before, after, view_b, view_a, step, what):
             def sig(lst):
                 out = []
                 for lg, e in lst:
-                    if (e.tag == 'MANIFEST'
-                            and R.strip_compression(full) in rewritten):
+                    if e.tag == 'MANIFEST' and (
+                            R.strip_compression(full) in rewritten
+                            or R.strip_compression(os.path.realpath(
+                                os.path.join(root, full)))
+                            in real_rewritten):
                         continue
                     out.append((lg, e.tag, e.size,
                                 tuple(sorted(e.checksums.items()))))
